@@ -163,6 +163,28 @@ let run_op (op : string) (args : Sx.t list) : opres =
         (fun t vs -> match to_list wc with Ok ws -> setfield_spec key t vs ws | Err e -> Err e) l in
     { r with inputs_valid = r.inputs_valid && valid_b wc;
              unsupported = (if has_union (type_of wc) then "union" else r.unsupported) }
+  | "setfieldat", [wh; l; w] ->
+    (* RecordArray::setitem_field(int64_t where, what): the new field goes to POSITION where (named records: under the
+       name str(where)); beyond the last field it is appended.  Stated here on the values (no layout-level model):
+       every record gets the new value at that position, everything else unchanged; lengths must agree; where < 0 errs. *)
+    let c = content_of_sx l and wc = content_of_sx w in
+    let wz = z_of_sx wh in
+    let wi = small_int_of_z wz in
+    let rec insert_at i x = (function
+        | [] -> [x]
+        | y :: r -> if i <= 0 then x :: y :: r else y :: insert_at (i - 1) x r) in
+    let spec_o =
+      (match c, to_list c, to_list wc with
+       | Record (_, _, _), Ok vs, Ok ws ->
+         if wi < 0 || List.length vs <> List.length ws then OErr
+         else OVal (VList (List.map2 (fun v x -> match v with
+             | VRec fs -> VRec (insert_at wi (name_of_string (string_of_int wi), x) fs)
+             | VTup xs -> VTup (insert_at wi x xs)
+             | other -> other) vs ws))
+       | Record (_, _, _), _, _ -> OBad "input-to_list"
+       | _ -> OErr) in
+    { model = OBad "fuel"; spec = spec_o; inputs_valid = valid_b c && valid_b wc; note = "";
+      unsupported = (if has_union (type_of c) || has_union (type_of wc) then "union" else "") }
   | "localindex", [a; l] -> ax_op (localindex_model (z a)) (localindex_spec (z a)) l
   | "rpad", [tg; a; l] -> ax_op (rpad_model (z tg) (z a)) (rpad_spec (z tg) (z a)) l
   | "rpadclip", [tg; a; l] -> ax_op (rpadclip_model (z tg) (z a)) (rpadclip_spec (z tg) (z a)) l
